@@ -53,7 +53,8 @@ def token_sets(fx):
 
 def run(res, tier):
     from . import sm_state
-    fx = common.load_units(res, ['regex/StringMatcher.cpp'], fn_regex=r'^muscle::(StringMatcher::|IsRegexToken|EscapeRegexTokens|RemoveEscapeChars|HasRegexTokens|CanWildcardStringMatchMultipleValues)')
+    fx = common.load_units(res, ['regex/StringMatcher.cpp', 'regex/SegmentedStringMatcher.cpp'],
+                           fn_regex=r'^muscle::(StringMatcher::|SegmentedStringMatcher::|IsRegexToken|EscapeRegexTokens|RemoveEscapeChars|HasRegexTokens|CanWildcardStringMatchMultipleValues)')
     res.functions_analysed = sum(1 for f in fx.funcs.values() if f.full)
     tf, always, first = token_sets(fx)
     res.rule('META-TABLE', 'characters that SetPattern gives a special meaning in position 0 or anywhere, and the POSIX-ERE metacharacters it passes to the regex engine unescaped, are all reported by '
@@ -153,6 +154,87 @@ def run(res, tier):
            how='covered %d characters' % len(covered), key='ESCAPE-INJECTION|%s|%s' % (f.q, ''.join(missing)),
            message='the translator copies "\\c" verbatim for c in %s, which glibc regcomp(REG_EXTENDED) reads as an operator: pattern "\\s" matches " " instead of "s", "\\`abc" matches "abc" although the '
                    'pattern is reported unique' % missing)
+    # ---- round-1 additions: escape handling
+    res.rule('ESCAPE-PARITY', 'every scanner in StringMatcher.cpp that carries an "previous character was an escape" flag from one character to the next never raises it for a character that was itself '
+                              'escaped (a doubled backslash is a literal backslash and does not escape what follows); the translator rewrites characters only outside escape mode', floor=3)
+    n_ep = 0
+    for g in sorted((g for g in fx.funcs.values() if g.full and g.file == 'regex/StringMatcher.cpp'), key=lambda g: g.line):
+        bs = [n for n in g.walk() if n['k'] == 'CharacterLiteral' and n.get('v') == 92]
+        if not bs:
+            continue
+        loops = C.natural_loops(g)
+        bools = {v['d']: v for v in g.walk() if v['k'] == 'VarDecl' and v.type().replace('const ', '').strip() in ('bool', '_Bool')}
+        for d, vd in sorted(bools.items()):
+            asg = [n for n in g.walk() if n['k'] == 'BinaryOperator' and n.get('op') == '=' and A.strip_casts(n['ch'][0]).get('d') == d]
+            vdp = g.pos(vd['i'])
+            # loop-carried: declared outside a loop in which it is assigned and read
+            carried = False
+            for (h, body) in loops:
+                if vdp is not None and vdp[0] not in body and any(P.pos_of(g, a) and P.pos_of(g, a)[0] in body for a in asg) \
+                        and any(u['k'] == 'DeclRefExpr' and u.get('d') == d and P.pos_of(g, u) and P.pos_of(g, u)[0] in body for u in g.walk()):
+                    carried = True
+            if not carried:
+                continue
+
+            def mentions(e, what, depth=0):
+                for x in e.walk():
+                    if what(x):
+                        return True
+                    if x['k'] == 'DeclRefExpr' and x.get('d') in bools and depth < 1 and x.get('d') != d:
+                        iv = bools[x['d']]
+                        if iv['ch'] and mentions(iv['ch'][0], what, depth + 1):
+                            return True
+                        for a2 in g.walk():
+                            if a2['k'] == 'BinaryOperator' and a2.get('op') == '=' and A.strip_casts(a2['ch'][0]).get('d') == x['d'] and mentions(a2['ch'][1], what, depth + 1):
+                                return True
+                return False
+            is_bs = lambda x: x['k'] == 'CharacterLiteral' and x.get('v') == 92
+            is_self = lambda x: x['k'] == 'DeclRefExpr' and x.get('d') == d
+            esc_flag = any(mentions(a['ch'][1], is_bs) for a in asg) or any(
+                a['ch'][1].get('v') in (1, True) and any(is_bs(x) for (c_, t_) in C.guards_of_block(g, P.pos_of(g, a)[0]) for x in g.nodes[c_].walk()) for a in asg) or any(
+                a['ch'][1].get('v') in (1, True) and any(lab == 92 for (cond, labels) in C.switch_guards_of_block(g, P.pos_of(g, a)[0]) for lab in labels) for a in asg)
+            if not esc_flag:
+                continue
+            n_ep += 1
+            ok = True
+            for a in asg:
+                rhs = a['ch'][1]
+                if rhs.get('v') in (0, False):
+                    continue
+                guarded = any(A.strip_casts(P.strip_not(g.nodes[c_])[0]).get('d') == d and (t_ != P.strip_not(g.nodes[c_])[1]) for (c_, t_) in C.guards_of_block(g, P.pos_of(g, a)[0]))
+                if not (mentions(rhs, is_self) or guarded):
+                    ok = False
+            res.ob('ESCAPE-PARITY', g.where(vd), '%s: escape flag `%s` is never raised for an escaped character' % (g.q.split('::')[-1], vd.get('n')), ok, function=g.q, key='ESCAPE-PARITY|%s|%s' % (g.q, vd.get('n')),
+                   message='%s: the flag `%s` is set for every backslash, including one that was itself escaped: in `a\\\\*` the second backslash then "escapes" the live `*`, so the pattern is '
+                           'classified as matching a single value although it matches many' % (g.q, vd.get('n')))
+    if n_ep < 3:
+        raise AnalysisBroken('ESCAPE-PARITY: only %d escape-flag scanners found in StringMatcher.cpp' % n_ep)
+    g = fx.fn1(SM + '::SetPattern')
+    # the translation loop: the character appended to the regex is the pattern character itself unless rewritten OUTSIDE escape mode
+    em = [v for v in g.walk() if v['k'] == 'VarDecl' and v.get('n') == 'escapeMode']
+    loads = [v for v in g.walk() if v['k'] == 'VarDecl' and v.type().strip() == 'char' and v['ch'] and any(a['k'] in ('ForStmt', 'WhileStmt') for a in v.ancestors())]
+    if not em or not loads:
+        raise AnalysisBroken('ESCAPE-PARITY: translation loop of SetPattern not found')
+    for v in loads:
+        init = A.strip_casts(v['ch'][0])
+        pure = init['k'] in ('UnaryOperator', 'ArraySubscriptExpr') and not any(x['k'] == 'ConditionalOperator' for x in init.walk())
+        asg = [n for n in g.walk() if n['k'] == 'BinaryOperator' and n.get('op') == '=' and A.strip_casts(n['ch'][0]).get('d') == v['d']]
+        okg = all(any(A.strip_casts(P.strip_not(g.nodes[c_])[0]).get('d') == em[0]['d'] and (t_ != P.strip_not(g.nodes[c_])[1]) for (c_, t_) in C.guards_of_block(g, P.pos_of(g, a)[0])) for a in asg)
+        res.ob('ESCAPE-PARITY', g.where(v), 'SetPattern: the loop character `%s` is loaded unchanged and rewritten only when escapeMode is false' % v.get('n'), pure and okg, function=g.q,
+               key='ESCAPE-PARITY|%s|translate-unescaped-only' % g.q, how='%d rewrite(s), all outside escape mode' % len(asg),
+               message='StringMatcher::SetPattern rewrites the pattern character before (or regardless of) the escape test: an escaped comma `\\,` becomes `\\|`, so EscapeRegexTokens("a,b") no '
+                       'longer matches "a,b" and matches "a|b" instead')
+    # SegmentedStringMatcher: the negation requested by a leading ~ survives
+    g = fx.fn1('muscle::SegmentedStringMatcher::SetPattern')
+    sn = [c for c in g.walk() if c.is_call() and (c.get('q') or '').endswith('::SetNegate') and c.args() and c.args()[0].get('v') in (1, True)]
+    aux = [c for c in g.walk() if c.is_call() and re.search(r'::(SetPatternAux|Clear)$', c.get('q') or '')]
+    if not sn or not aux:
+        raise AnalysisBroken('ESCAPE-PARITY: SegmentedStringMatcher::SetPattern: SetNegate(true) / SetPatternAux not found')
+    bad = any(P.pos_of(g, s_) and P.pos_of(g, a) and ((P.pos_of(g, s_)[0] == P.pos_of(g, a)[0] and P.pos_of(g, s_)[1] < P.pos_of(g, a)[1]) or C.can_reach(g, P.pos_of(g, s_), set([P.pos_of(g, a)]))) for s_ in sn for a in aux)
+    res.ob('META-TABLE', g.where(sn[0]), 'SegmentedStringMatcher::SetPattern sets the negate flag after SetPatternAux() (which starts with Clear())', not bad, function=g.q,
+           key='META-TABLE|%s|negate-last' % g.q,
+           message='SegmentedStringMatcher::SetPattern calls SetNegate(true) before SetPatternAux(), whose Clear() resets the flag: the leading ~ is stripped but the negation is lost, so `~foo/b*` '
+                   'matches exactly what `foo/b*` matches')
     sm_state.regex_valid_rule(res, fx)
     sm_state.ranges_reset_rule(res, fx)
     res.explanation = ('Static decision of two table-agreement clauses of C15: the special-character tables are extracted from the resolved AST (comparisons against str[0], the cases of the translation switch and '
